@@ -356,6 +356,11 @@ theorem applyStoreOp_sorted (pk : List Nat) (hpk : pk ≠ []) (st : List RowSet 
     simp only [applyStoreOp, List.mem_map] at hrs
     obtain ⟨rs0, h0, rfl⟩ := hrs
     exact h rs0 h0
+  | delRange c r =>
+    intro rs hrs
+    simp only [applyStoreOp, List.mem_map] at hrs
+    obtain ⟨rs0, h0, rfl⟩ := hrs
+    exact h rs0 h0
   | compact =>
     intro rs hrs
     simp only [applyStoreOp] at hrs
